@@ -179,6 +179,9 @@ func sameValue(a, b Value) bool {
 }
 
 func (in *Interp) checkFrozen(p *Value, v Value, pos token.Pos) {
+	if in.freezeExempt > 0 {
+		return
+	}
 	why, fz := in.frozen[p]
 	if !fz {
 		// storing a struct into a slot writes its fields: check them too
